@@ -260,6 +260,6 @@ func init() {
 	register(&propertySpec{
 		ID:      "C02",
 		Explain: "Static provenance / purity / sibling rules for fact search: same term extraction on add, remove and search; searches do not write the indexes; results are re-matched against the stored fact; the extractor covers the matcher's containers; the returned id is the key. Does not decide that terms(pattern) is a subset of terms(fact) for every matching pair, the intersection logic, uniqueness of generated ids or get-after-write values.",
-		Rules:   []ruleFn{ruleTermSame, ruleReadPure, ruleSearchRematch, ruleTermContainers, ruleIdKey, ruleLoadFresh, rulePropMarker, ruleLoopExhaust("C02"), ruleCascade, ruleTermFilter("C02"), ruleTermPrepared("C02"), ruleFactIdxLast("C02"), ruleClockUnits("C02")},
+		Rules:   []ruleFn{ruleTermSame, ruleReadPure, ruleSearchRematch, ruleTermContainers, ruleIdKey, ruleLoadFresh, rulePropMarker, ruleLoopExhaust("C02"), ruleCascade, ruleTermFilter("C02"), ruleTermPrepared("C02"), ruleFactIdxLast("C02"), ruleClockUnits("C02"), ruleTermNumbers("C02")},
 	})
 }
